@@ -16,6 +16,7 @@ import (
 	"sort"
 	"strconv"
 	"strings"
+	"sync"
 	"time"
 
 	"github.com/relex/gotils/logger"
@@ -293,7 +294,7 @@ func (b *bufferComp) Impl(c Case) (out []string) {
 			out = append(out, r.state(st, ""))
 		case "buf destroystalled":
 			// the consumer stalls: Destroy gives up waiting after its timeout; by then everything must be saved or counted
-			if r.destroyD != nil {
+			if r == nil || r.buf == nil || r.destroyD != nil {
 				out = append(out, "not-enabled")
 				continue
 			}
@@ -309,7 +310,7 @@ func (b *bufferComp) Impl(c Case) (out []string) {
 			defs.IntermediateChannelTimeout = 2 * time.Second
 			out = append(out, r.state(feederState(), ""))
 		case "buf destroy":
-			if r.destroyD != nil {
+			if r == nil || r.buf == nil || r.destroyD != nil {
 				out = append(out, "not-enabled")
 				continue
 			}
@@ -317,6 +318,36 @@ func (b *bufferComp) Impl(c Case) (out []string) {
 			r.destroyD = d
 			go func(bf base.ChunkBufferer) { bf.Destroy(); close(d) }(r.buf)
 			out = append(out, r.state(waitFeeder("waiting"), ""))
+		case "buf cdestroy":
+			// shutdown as it happens in the agent: Destroy (the feeder saves queue, hand and window) runs while the consumer
+			// hands back everything it holds, every chunk from its own goroutine
+			if r == nil || r.buf == nil || r.destroyD != nil {
+				out = append(out, "not-enabled")
+				continue
+			}
+			d := make(chan struct{})
+			r.destroyD = d
+			var ids []int
+			for id := range r.held {
+				ids = append(ids, id)
+			}
+			sort.Ints(ids)
+			var wg sync.WaitGroup
+			start := make(chan struct{})
+			for _, id := range ids {
+				ch := r.held[id]
+				delete(r.held, id)
+				wg.Add(1)
+				go func(ch base.LogChunk) { defer wg.Done(); <-start; r.args.OnChunkLeftover(ch) }(ch)
+			}
+			go func(bf base.ChunkBufferer) { <-start; bf.Destroy(); close(d) }(r.buf)
+			close(start)
+			wg.Wait()
+			hb := make([]string, len(ids))
+			for i, id := range ids {
+				hb[i] = strconv.Itoa(id)
+			}
+			out = append(out, r.state(waitFeeder("waiting"), " hb="+strings.Join(hb, "+")))
 		case "buf finish":
 			if r.destroyD == nil {
 				out = append(out, "not-enabled")
@@ -364,6 +395,7 @@ func (b *bufferComp) Oracle(c Case, impl []string) string {
 	var lastFiles, prevFiles map[int]string
 	heldByConsumer := map[int]bool{}
 	tampered := map[int]bool{}
+	concurrentSave := false // the property allows the size limit to be exceeded by the chunks being saved concurrently at shutdown
 	parse := func(line string) (map[string]string, map[int]string) {
 		kv := map[string]string{}
 		for _, t := range strings.Fields(line) {
@@ -417,6 +449,7 @@ func (b *bufferComp) Oracle(c Case, impl []string) string {
 		switch o.Name {
 		case "buf new", "buf newacc":
 			memCap, maxBytes = int(o.Ints[0]), o.Ints[2]
+			concurrentSave = false
 			heldByConsumer = map[int]bool{}
 			order = order[:0]
 			takenOrder = takenOrder[:0]
@@ -470,6 +503,13 @@ func (b *bufferComp) Oracle(c Case, impl []string) string {
 			tampered[int(o.Ints[0])] = true
 		case "buf handback":
 			delete(heldByConsumer, int(o.Ints[0]))
+		case "buf cdestroy":
+			for _, t := range strings.Split(kv["hb"], "+") {
+				if id, err := strconv.Atoi(t); err == nil {
+					delete(heldByConsumer, id)
+				}
+			}
+			concurrentSave = true
 		case "buf confirm":
 			id := int(o.Ints[0])
 			delete(heldByConsumer, id)
@@ -494,7 +534,7 @@ func (b *bufferComp) Oracle(c Case, impl []string) string {
 		d, _ := strconv.ParseInt(kv["dr"], 10, 64)
 		dropped = d
 		// the queue's files stay within the size limit: whenever a file is written, the directory must still be within it
-		if o.Name != "buf new" && o.Name != "buf newacc" && prevFiles != nil {
+		if o.Name != "buf new" && o.Name != "buf newacc" && prevFiles != nil && !concurrentSave {
 			var total int64
 			wrote := -1
 			for id, h := range files {
@@ -545,7 +585,7 @@ func (b *bufferComp) Oracle(c Case, impl []string) string {
 }
 
 func (b *bufferComp) Class(c Case, impl []string) string {
-	var spilled, droppedAny, recovered, handback, overflow, nodir, corrupt bool
+	var spilled, droppedAny, recovered, handback, overflow, nodir, corrupt, concurrent bool
 	for i, o := range c.Ops {
 		if i >= len(impl) {
 			break
@@ -557,8 +597,11 @@ func (b *bufferComp) Class(c Case, impl []string) string {
 		if (o.Name == "buf new" || o.Name == "buf newacc") && strings.Contains(impl[i], "ip=") && !strings.Contains(impl[i], "ip=0 ") {
 			recovered = true
 		}
-		if o.Name == "buf handback" {
+		if o.Name == "buf handback" || o.Name == "buf cdestroy" {
 			handback = true
+		}
+		if o.Name == "buf cdestroy" {
+			concurrent = true
 		}
 		if o.Name == "buf extzero" || o.Name == "buf extrm" {
 			corrupt = true
@@ -577,7 +620,7 @@ func (b *bufferComp) Class(c Case, impl []string) string {
 	for _, p := range []struct {
 		b bool
 		s string
-	}{{spilled, "spill"}, {droppedAny, "drop"}, {recovered, "recover"}, {handback, "handback"}, {overflow, "window-full"}, {nodir, "no-dir"}, {corrupt, "bad-file"}} {
+	}{{spilled, "spill"}, {droppedAny, "drop"}, {recovered, "recover"}, {handback, "handback"}, {overflow, "window-full"}, {nodir, "no-dir"}, {corrupt, "bad-file"}, {concurrent, "concurrent-shutdown"}} {
 		if p.b {
 			parts = append(parts, p.s)
 		}
@@ -592,6 +635,40 @@ func (b *bufferComp) Generate(rng *rand.Rand, n int, emit func(Case)) {
 	// a backlog larger than any batch size a directory scan might use
 	emit(Case{Ops: []Op{{Name: "bufr plant", Ints: []int64{2600, rng.Int63()}}, {Name: "bufr new", Ints: []int64{8, 5000, 1 << 30, 1, 0}},
 		{Name: "bufr drain"}, {Name: "bufr destroy"}, {Name: "bufr finish"}}, Tag: "backlog"})
+	// shutdown with the feeder and the consumer saving at the same time: a wide window of chunks that were never spilled,
+	// half of them held by the consumer; everything before the shutdown is compared with the model, the shutdown itself
+	// (whose outcome depends on the interleaving) is judged by the oracle: conservation and byte identity of every file
+	for k := 0; k < 2+n/40; k++ {
+		mem := []int64{32, 64}[k%2]
+		quota := int64(1 << 30)
+		if k%3 == 2 {
+			quota = 40 * mem / 3 // about a third fits: the rest must be counted as dropped
+		}
+		ops := []Op{{Name: "buf new", Ints: []int64{mem, 200, quota, 1, 1}}}
+		id := 1
+		acc := func(cnt int) {
+			for j := 0; j < cnt; j++ {
+				size := 1 + rng.Intn(40)
+				data := make([]byte, size)
+				for x := range data {
+					data[x] = byte(id*13 + x)
+				}
+				ops = append(ops, Op{Name: "buf accept", Ints: []int64{int64(id)}, Bytes: [][]byte{data}})
+				id++
+			}
+		}
+		acc(int(mem / 2))
+		for j := int64(0); j < mem/2-2; j++ {
+			ops = append(ops, Op{Name: "buf take", Meta: "take"})
+		}
+		acc(int(mem/2) - 2)
+		ops = append(ops, Op{Name: "bufr cdestroy"}, Op{Name: "bufr finish"})
+		if k%2 == 1 {
+			// the next generation must find and deliver exactly what was saved
+			ops = append(ops, Op{Name: "bufr new", Ints: []int64{8, 200, 1 << 30, 1, 0}}, Op{Name: "bufr drain"}, Op{Name: "bufr destroy"}, Op{Name: "bufr finish"})
+		}
+		emit(Case{Ops: ops, Tag: "concurrent-shutdown"})
+	}
 	for i := 0; i < n; i++ {
 		var ops []Op
 		nextID := 1 + rng.Intn(3)
